@@ -401,6 +401,68 @@ def run_case(c, only_prop=None):
         shutil.rmtree(tmp, ignore_errors=True)
 
 
+ALL_PROPS = ["C%02d" % i for i in range(1, 20)]
+
+
+def _patch_case(path):
+    def fn(tmp):
+        pr = subprocess.run(["patch", "-p1", "-s", "-i", path], cwd=tmp, capture_output=True, text=True)
+        if pr.returncode != 0:
+            raise RuntimeError("patch does not apply: " + (pr.stdout + pr.stderr)[-200:])
+    return fn
+
+
+FILE_PROPS = [
+    (r"src/util/(file_navigation|fileserver)\.rs|src/asm/parser/mod\.rs", ["C14"]),
+    (r"src/util/symbol_manager\.rs", ["C15", "C13", "C16"]),
+    (r"src/util/symbol_format\.rs", ["C12", "C10"]),
+    (r"src/util/overlap_checker\.rs", ["C06"]),
+    (r"src/util/bitvec", ["C11", "C12", "C06"]),
+    (r"src/util/bigint\.rs", ["C05", "C04"]),
+    (r"src/util/char_counter\.rs", ["C13", "C12"]),
+    (r"src/asm/resolver/", ["C02", "C09", "C01", "C06", "C15", "C16", "C17", "C04", "C14", "C08"]),
+    (r"src/asm/matcher/", ["C01", "C07", "C08", "C02", "C15", "C17"]),
+    (r"src/asm/output/", ["C06", "C12", "C01"]),
+    (r"src/asm/mod\.rs", ["C16", "C01", "C09", "C15", "C06"]),
+    (r"src/driver\.rs", ["C18", "C11", "C09", "C12"]),
+    (r"src/expr/", ["C05", "C17", "C08", "C02"]),
+    (r"src/syntax/", ["C13", "C07", "C05"]),
+    (r"src/asm/parser/", ["C15", "C16", "C04", "C14", "C07"]),
+    (r"src/asm/(decls|defs)/", ["C15", "C08", "C07", "C06", "C04"]),
+    (r"src/diagn/", ["C13"]),
+]
+GLOBAL_PROPS = ["C03", "C10", "C13", "C19"]     # analyses that look at every function
+
+
+def props_of_patch(path):
+    files = re.findall(r"^\+\+\+ b/(\S+)", open(path, encoding="utf-8").read(), re.M)
+    out = set(GLOBAL_PROPS)
+    for fl in files:
+        for rx, ps in FILE_PROPS:
+            if re.search(rx, fl):
+                out |= set(ps)
+    return sorted(out)
+
+
+def _load_patches():
+    """behaviour-preserving refactorings kept as patches under /verif/neutral (written by independent sub-agents or by hand);
+    neutral/index.json may restrict the properties a patch is relevant for"""
+    import json, glob
+    d = os.path.join(VERIF, "neutral")
+    idx = {}
+    try:
+        idx = json.load(open(os.path.join(d, "index.json")))
+    except Exception:
+        pass
+    for pth in sorted(glob.glob(os.path.join(d, "*.diff"))):
+        name = "patch-" + os.path.basename(pth)[:-5]
+        if not any(c[0] == name for c in CASES):
+            CASES.append((name, idx.get(os.path.basename(pth)) or props_of_patch(pth), _patch_case(pth)))
+
+
+_load_patches()
+
+
 def main():
     ap = argparse.ArgumentParser()
     ap.add_argument("--name", default="")
